@@ -204,4 +204,4 @@ def r7(cx):
 @rule("C04", "R8", "the answer does not depend on cache temperature: the transparency rules of C16 (key = object path, only fetched content inserted, every tier keyed, options bypass, "
       "invalidation of every tier, no answer without a lookup), evaluated for this property")
 def r8(cx):
-    _include(cx, "C16", ["r1", "r2", "r3", "r4", "r5"], "cache transparency")
+    _include(cx, "C16", ["r1", "r2", "r3", "r4", "r5", "r6"], "cache transparency")
